@@ -12,7 +12,7 @@ from ..report import RuleSpec
 from .. import codec as C
 from .. import sym
 from ..flow import Flow, SeqV, ExprV, TupV, show, ctor_kwargs
-from .common import fn_loc, unparse, local_defs, strip_calls, ordered_stmts, call_name
+from .common import fn_loc, unparse, local_defs, strip_calls, ordered_stmts, call_name, comp_of_append_loop
 from . import timing_common as T
 
 BMSMAP = "reamber.bms.BMSMap.BMSMap"
@@ -205,9 +205,14 @@ def rule_r2(ctx) -> List[R.Inst]:
 # --------------------------------------------------------------------------- R3
 def _main_loop(fn) -> ast.For:
     data = [p for p in params_of(fn.node) if p not in ("self", "config")]
-    for s in fn.node.body:
-        if isinstance(s, ast.For):
-            return s
+    loops = [s for s in fn.node.body if isinstance(s, ast.For)]
+    # the loop over the data lines: the one whose iterable mentions the data parameter; else the largest (a short loop that only
+    # pre-fills a buffer is not it)
+    over = [s for s in loops if any(isinstance(x, ast.Name) and x.id in data for x in ast.walk(s.iter))]
+    if over:
+        return over[0]
+    if loops:
+        return max(loops, key=lambda s: sum(1 for _ in ast.walk(s)))
     raise AnalysisError("_read_notes: per-line loop not found")
 
 
@@ -738,6 +743,8 @@ def rule_r7(ctx) -> List[R.Inst]:
         return d[0] if len(d) == 1 else None
     # pairs: 2-byte slices
     pairs = one("pairs")
+    if isinstance(pairs, ast.List) and not pairs.elts:
+        pairs = comp_of_append_loop(loop, "pairs") or pairs      # (the list filled by a loop of its own)
     ok_pairs = False
     if isinstance(pairs, ast.ListComp) and len(pairs.generators) == 1:
         g = pairs.generators[0]
